@@ -172,7 +172,10 @@ Definition run_walk_suite (cs : list walk_case) :=
    ("RESULT", "C11.ok_iff_well_formed", bad (fun c => match wc_res c with WOk => wf (wc_g c) | WErr _ => negb (wf (wc_g c)) | _ => true end) (fun c => show_graph (wc_g c)) cs);
    ("RESULT", "C11.error_names_real_defect", bad (fun c => match wc_res c with WErr e => has_defect_b (wc_g c) (match e with HalfBond a b => DHalf a b | DuplicateBond a b => DDuplicate a b
         | UnknownTarget a b => DUnknown a b | IncompatibleBond a b => DIncompatible a b | Loop a => DLoop a end) | _ => true end) (fun c => show_graph (wc_g c)) cs);
-   ("RESULT", "C06.walk_nopanic", bad (fun c => match wc_res c with WPanic 2 => existsb (fun a => known_invert_panic (akind a)) (wc_g c) | WPanic _ => false | _ => true end) (fun c => show_graph (wc_g c)) cs);
+   (* K3 (a 100th closure open at once, F15) is the known class exactly when the model, whose K3 is proved to occur only with 99 open, predicts it *)
+   ("RESULT", "C06.walk_nopanic", bad (fun c => match wc_res c with WPanic 2 => existsb (fun a => known_invert_panic (akind a)) (wc_g c)
+        | WPanic 3 => wres_eqb (fst (walk (wc_g c))) (WPanic 3) | WPanic _ => false | _ => true end) (fun c => show_graph (wc_g c)) cs);
+   ("RESULT", "C06.known.K3_more_than_99_open", firstn 2 (bad (fun c => match wc_res c with WPanic 3 => negb (wres_eqb (fst (walk (wc_g c))) (WPanic 3)) | _ => true end) (fun c => show_graph (wc_g c)) cs));
    ("RESULT", "C06.known.K2_invert_unimplemented", firstn 2 (bad (fun c => match wc_res c with WPanic 2 => negb (existsb (fun a => known_invert_panic (akind a)) (wc_g c)) | _ => true end) (fun c => show_graph (wc_g c)) cs))].
 
 Definition nkev (e : ev) : ev := match e with ERoot k => ERoot (nk_kind k) | EExtend b k => EExtend b (nk_kind k) | x => x end.
